@@ -217,6 +217,16 @@ def trim_uid(chk, fx, rule):
     hp = fx.method("dicom_ul", "dicom_ul::association::server::ServerAssociationOptions", "process_a_association_rq")
     uses = [x for c, x in H.calls(hp["body"]) if c and c.endswith("uid::trim_uid")]
     chk.expect(len(uses) >= 1, rule, "process_a_association_rq", "abstract-syntax-trimmed", "trim_uid applied to the proposed abstract syntax", len(uses), loc=C.fn_loc(hp))
+    # the trimming predicate itself: a character is padding when it is white space OR NUL (operators included), and the only test that
+    # selects the trimming path asks for a trailing NUL
+    for i, x in enumerate(trims):
+        cl = [y for a in x[5] for y in H.walk(a) if H.kind(y) == "closure"]
+        body = H.show(cl[0][4] if cl and len(cl[0]) > 4 else (x[5][0] if x[5] else None), 6) if cl else ""
+        norm = re.sub(r"'\\0'|'\\u\{0\}'|'\x00'|\x00", "NUL", body)
+        ok = re.fullmatch(r"\{?\((\w+)\.is_whitespace\(\) Or \(\1 Eq NUL\)\)\}?|\{?\(\((\w+) Eq NUL\) Or \2\.is_whitespace\(\)\)\}?", norm) is not None
+        chk.expect(ok, rule, "trim_uid", f"padding-predicate#{i}", "c.is_whitespace() || c == NUL", body[:100], loc=f"{h['loc']['f']}:{x[1]}")
+    conds = [H.show(y[2], 5) for y in H.walk(h["body"]) if H.kind(y) == "if"]
+    chk.expect(all(re.fullmatch(r"uid\.ends_with\(.*\)", c) for c in conds), rule, "trim_uid", "trimming-path-selector", "if uid.ends_with(NUL) (not negated)", conds, loc=C.fn_loc(h))
 
 
 def negotiated_labels(chk, fx, rule):
